@@ -10,7 +10,7 @@
     clone <c> | combine <a> <b>                      → c<k> / <error>
 
     <sym>      s<k> | g<k>                 (g = subscripted form of a generic class)
-    <factory>  f<fid>/<qual | ->/<params>  params: `,`-separated `_` (unannotated) | <sym>, `-` = none
+    <factory>  f<fid>/<aid>/<params>   aid = identity of the annotated callable; params: `,`-separated `_` (unannotated) | <sym>, `-` = none
     <defs>     `;`-separated s<k>=<inj>, `-` = none;  <inj> = <factory> | n<name>@<factory> | n<name>!attr | n<name>!mod
     <args>     `,`-separated x<id>:<ty>, `-` = none
 -/
@@ -37,11 +37,9 @@ def parseFactory (s : String) : Option Factory :=
   match s.splitOn "/" with
   | [f, q, ps] =>
     if !f.startsWith "f" then none else
-    match natOf (f.drop 1).toString, parseParams ps with
-    | some fid, some params =>
-      if q == "-" then some ⟨fid, none, params⟩
-      else (natOf q).map (fun qn => ⟨fid, some qn, params⟩)
-    | _, _ => none
+    match natOf (f.drop 1).toString, natOf q, parseParams ps with
+    | some fid, some aid, some params => some ⟨fid, aid, params⟩
+    | _, _, _ => none
   | _ => none
 
 def parseInj (s : String) : Option Injector :=
